@@ -24,16 +24,16 @@ def run(d):
     shutil.rmtree(sc, ignore_errors=True)
     return tag, res
 
-dirs = sorted(glob.glob(V + '/seeded/C*-m*')) + sorted(glob.glob(V + '/seeded/REGRESS-*')) + sorted(glob.glob(V + '/seeded/R2-*')) + sorted(glob.glob(V + '/benign/*'))
+dirs = sorted(glob.glob(V + '/seeded/C*-m*')) + sorted(glob.glob(V + '/seeded/REGRESS-*')) + sorted(glob.glob(V + '/seeded/R2-*')) + sorted(d for d in glob.glob(V + '/benign/*') if os.path.isdir(d))
 if len(sys.argv) > 1:
     dirs = [d for d in dirs if any(a in d for a in sys.argv[1:])]
 out = {}
-with ThreadPoolExecutor(10) as ex:
+with ThreadPoolExecutor(15) as ex:
     for tag, res in ex.map(run, dirs):
         out[tag] = res
         fired = [p for p, v in res.items() if isinstance(v, dict) and v.get('exit') == 1]
         err = [p for p, v in res.items() if isinstance(v, dict) and v.get('exit') == 2]
-        print(tag, 'fired', fired, 'exit2', err)
+        print(tag, 'fired', fired, 'exit2', err, flush=True)
 mp = V + '/seeded/MATRIX.json'
 old = json.load(open(mp)) if os.path.exists(mp) and len(sys.argv) > 1 else {}
 old.update(out)
